@@ -1,7 +1,7 @@
 (** Correspondence evaluators for C12 and C10: the cases written by harness/cmd/c12 and c10 are
     compared with Sql/Model.v here (executable definitions only). *)
 From Coq Require Import List ZArith String Bool.
-From Thunder Require Import Sql.Model Sql.ModelExact Sql.Methods.
+From Thunder Require Import Sql.Model Sql.ModelExact Sql.Methods Sql.Matcher.
 Import ListNotations.
 Open Scope string_scope.
 
@@ -323,17 +323,48 @@ Definition mm_of (fixed : bool) : table -> filter -> drow -> bool :=
 Definition transparent_of (fixed : bool) : table -> filter -> bool :=
   if fixed then filter_transparent_fixed else filter_transparent.
 
-Definition model_batched_rows (fixed : bool) (t : table) (fs : list filter) (cs : list c10_caller) (arrival : list (list nat))
+(** The rows of every caller of one invocation of the batch function, computed through the matcher's data
+    structures (Sql/Matcher.v: add per item, match per fetched row, one append per id returned; with the row
+    tester when the tree has C10-fix-2) -- positions in [contents], one list per position in the batch.
+    Sql/MatcherProofs.v proves this equal to filtering with [matcher_matches] / [matcher_matches_fixed]. *)
+Definition batch_rows_struct (fixed : bool) (t : table) (fsb : list filter) (contents : list drow) : list (list nat) :=
+  let w := batch_wclause t fsb in
+  let m := matcher_of fsb in
+  let fetched := filter_idx (fun r => is_tt (eval_wclause w r)) contents 0 in
+  let matched := map (fun k => let r := nth k contents [] in (k, (r, matcher_match m (coerce_map (extract_row t r))))) fetched in
+  map (fun pf => flat_map (fun krm => if fixed && negb (tester_test t (snd pf) (fst (snd krm))) then []
+                                     else repeat (fst krm) (count_nat (fst pf) (snd (snd krm)))) matched)
+      (combine (seq 0 (List.length fsb)) fsb).
+
+Fixpoint pos_in (b : list nat) (i : nat) (p : nat) : option nat :=
+  match b with
+  | [] => None
+  | j :: rest => if Nat.eqb i j then Some p else pos_in rest i (S p)
+  end.
+
+(** Every batch of the run with the rows of its callers (computed once per case). *)
+Definition batches_table (fixed : bool) (t : table) (fs : list filter) (arrival : list (list nat)) (contents : list drow)
+  : list (list nat * list (list nat)) :=
+  map (fun b => (b, batch_rows_struct fixed t (map (nth_filter fs) b) contents)) arrival.
+
+Fixpoint rows_from_table (tbl : list (list nat * list (list nat))) (i : nat) : option (list nat) :=
+  match tbl with
+  | [] => None
+  | (b, rows) :: rest =>
+      match pos_in b i 0 with
+      | Some p => Some (nth p rows [])
+      | None => rows_from_table rest i
+      end
+  end.
+
+Definition model_batched_rows (tbl : list (list nat * list (list nat))) (t : table) (fs : list filter) (cs : list c10_caller)
            (contents : list drow) (i : nat) : option (nat * list nat) :=
   match nth_caller_opts cs i with
   | Some _ => model_single_rows t fs cs contents i          (* a statement of its own *)
   | None =>
-      match batch_of arrival i with
+      match rows_from_table tbl i with
       | None => Some (0, [])
-      | Some b =>
-          let w := batch_wclause t (map (nth_filter fs) b) in
-          Some (call_result (nth_caller_row cs i)
-                  (filter_idx (fun r => is_tt (eval_wclause w r) && mm_of fixed t (nth_filter fs i) r) contents 0))
+      | Some rows => Some (call_result (nth_caller_row cs i) rows)
       end
   end.
 
@@ -405,7 +436,8 @@ Definition c10_check (c : c10_case) : list nat :=
         (map (fun b => EStmt (batch_stmt t (map (nth_filter fs) b))) (q_arrival c)
          ++ map (own_event t fs cs) (List.filter (has_opts cs) (seq 0 n)))
         (q_batched_stmts c) then [] else [1])
-  ++ (if results_agree (map (model_batched_rows (q_fixed c) t fs cs (q_arrival c) (q_contents c)) (seq 0 n)) (q_batched_rows c)
+  ++ (let tbl := batches_table (q_fixed c) t fs (q_arrival c) (q_contents c) in
+      if results_agree (map (model_batched_rows tbl t fs cs (q_contents c)) (seq 0 n)) (q_batched_rows c)
       then [] else [2])
   ++ (if obs_list_eqb (map (own_stmt t fs cs) (seq 0 n)) (q_single_stmts c) then [] else [3])
   ++ (if results_agree (map (model_single_rows t fs cs (q_contents c)) (seq 0 n)) (q_single_rows c) then [] else [4])
